@@ -78,16 +78,17 @@ def _events(evs):
 def run_plain(reads):
     from hio.core.http import httping
     es = httping.EventSource()
-    err = None
+    err, late = None, None
     for frag in reads:
         es.raw.extend(frag)
-        if err:
-            continue
         try:
             es.parse()
         except Exception as ex:  # noqa
-            err = exn_kind(ex)
-    return {"events": _events(es.events), "leid": es.leid, "retry": es.retry, "err": err, "left": h(es.raw)}
+            if err is None:
+                err = exn_kind(ex)
+            else:
+                late = exn_kind(ex)     # a parser that already failed must stay quiet (the model's Dead state)
+    return {"events": _events(es.events), "leid": es.leid, "retry": es.retry, "err": err, "left": h(es.raw), "late": late}
 
 
 def run_history(init, conns):
@@ -227,6 +228,8 @@ def oracle(case, obs):
     if case["mode"] == "chunked" and (whole["events"], whole["leid"], whole["retry"], whole["err"]) != \
             (obs["events"], obs["leid"], obs["retry"], obs["err"]):
         return f"result depends on fragmentation: split {_canon(obs)} vs whole {_canon(whole)}"
+    if obs.get("late") is not None:
+        return f"parse() on an event source that had already failed raised {obs['late']} instead of doing nothing"
     if case.get("expect_error"):
         return None if obs["err"] == "HTTPExc" else f"over-long line not rejected: err={obs['err']}"
     if obs["err"] is not None:
@@ -407,6 +410,7 @@ def directed():
     out.append({"mode": "plain", "reads": [h(long_ok)]})
     out.append({"mode": "plain", "reads": [h(long_ok[:65537]), h(long_ok[65537:])]})
     out.append({"mode": "plain", "reads": [h(long_bad)], "expect_error": True})
+    out.append({"mode": "plain", "reads": [h(long_bad), h(b"data: more\n\n"), h(b"x")], "expect_error": True})
     out.append({"mode": "until", "reads": [h(long_bad[:65538]), h(long_bad[65538:])], "expect_error": True})
     return out
 
